@@ -245,7 +245,7 @@ func TestC10(t *testing.T) {
 		}
 	}
 
-	r.Rapid(t, "packets", vf.N(6000, 900000), func(t *rapid.T) {
+	r.Rapid(t, "packets", vf.N(12000, 900000), func(t *rapid.T) {
 		typ := gen.Type(t)
 		var m model.Packet
 		malformed := rapid.IntRange(0, 3).Draw(t, "malformed") == 0
